@@ -82,7 +82,8 @@ def run(ctx):
         for pos, th in enumerate(O.chain(fam, nchain), 1):
             jobs.append((fam, pos, th, 0 if quick else 31))
     with Pool(16) as pool:
-        obs = pool.map(_observe, jobs, chunksize=2)
+        obs = pool.map(O.Safe(_observe), jobs, chunksize=2)
+    obs, jobs = O.split_raised(ctx, 'C06', obs, jobs, 'harness.props.C06._observe')
     verdict = O.run_laws(ctx, 'CopulaLaws', 'CopulaLaws', obs)
     for o in obs:
         ctx.case('%s|%s' % (o['fam'], o['theta']))
